@@ -127,6 +127,28 @@ def run(ctx: Any, prog: Program) -> None:
             ctx.check('C17.N5', skipped == want, ins, first, f'{ast.unparse(lp.iter)}: an object with hidden={hidden}, vis_shown={shown}, vis_auto_shown={auto} is '
                       f'{"skipped" if skipped else "collapsed"} but must be {"skipped" if want else "collapsed"} (visible = not hidden and shown in its visgroups)',
                       text=f'{ast.unparse(lp.iter)} hidden={hidden} shown={shown} auto={auto}')
+    # brushes tied to an entity are not filtered by collapse_one: their own hidden state has to survive Entity.copy, whatever the entity-level
+    # keep_vis says (keep_vis=False only strips the entity's visgroup membership)
+    ec = vm.func('Entity.copy')
+    ent_filters_solids = any(isinstance(n, ast.Attribute) and n.attr == 'solids' and isinstance(n.ctx, (ast.Store, ast.Del)) for n in ast.walk(co))
+    for lp_ in [n for n in ast.walk(co) if isinstance(n, ast.For) and '.solids' in ast.unparse(n.iter)]:
+        svars = {n.id for n in ast.walk(lp_.target) if isinstance(n, ast.Name)}
+        ent_filters_solids |= any(isinstance(n, ast.Attribute) and n.attr in ('hidden', 'vis_shown') and isinstance(n.value, ast.Name) and n.value.id in svars
+                                  for st in lp_.body for n in ast.walk(st))
+    scopies = [c for c in ast.walk(ec) if isinstance(c, ast.Call) and isinstance(c.func, ast.Attribute) and c.func.attr == 'copy'
+               and any(k.arg == 'side_mapping' for k in c.keywords)]
+    ctx.shape('C17.N5', len(scopies) == 1 and not ent_filters_solids, vm, ec, 'Entity.copy duplicates its solids through one Solid.copy(side_mapping=...) call and collapse_one leaves entity solids to it',
+              func='Entity.copy', text='solid copies keep their hidden state')
+    for c in scopies:
+        kv_ = [k.value for k in c.keywords if k.arg == 'keep_vis']
+        if len(c.args) >= 3:
+            kv_.append(c.args[2])
+        strips = [v for v in kv_ if not (isinstance(v, ast.Constant) and v.value is True)]
+        named = [v for v in strips if isinstance(v, ast.Constant) or (isinstance(v, ast.Name) and v.id in {a.arg for a in ec.args.args + ec.args.kwonlyargs})]
+        ctx.shape('C17.N5', len(named) == len(strips), vm, c, f'keep_vis argument `{ast.unparse(strips[0]) if strips else ""}` of the per-solid copy is not a constant or a parameter',
+                  func='Entity.copy', text='solid copies keep their hidden state')
+        ctx.check('C17.N5', not strips, vm, c, f'Entity.copy passes keep_vis={ast.unparse(strips[0]) if strips else ""} to the copies of its solids: collapse_one copies visible entities with keep_vis=False and '
+                  'does not look at their solids, so an individually hidden brush of a visible brush entity would be added to the map as a visible one', func='Entity.copy', text='solid copies keep their hidden state')
     # ---- N2 --------------------------------------------------------------------------------------------
     ca = ins.func('collapse_all')
     outer = [s for s in ca.body if isinstance(s, ast.For)]
@@ -455,10 +477,41 @@ def n6_substitute(ctx: Any, vm: Any) -> None:
         walk(tree)
         ctx.check('C17.N6', not empty_branch, vm, comp[0], f'{label}: the variable pattern is `{pattern}`: its empty alternative matches first, so `$name` is replaced by the default followed by `name` '
                   '(an instance collapsed without fixups keeps the variable names as text)', func='EntityFixup.substitute', text=f'variable pattern {label}')
+    # early outs: the text may be handed back untouched only when it contains no `$` at all - undefined variables still have to be
+    # replaced by the default (collapse_one passes ''), also when the instance defines no variables
+    prm_ = fn.args.args[1].arg
+    n_early = 0
+    for r_ in [x for x in ast.walk(fn) if isinstance(x, ast.Return) and isinstance(x.value, ast.Name) and x.value.id == prm_]:
+        par_ = vm.parents.get(r_)
+        if not isinstance(par_, ast.If) or r_ not in par_.body:
+            ctx.shape('C17.N6', False, vm, r_, 'unguarded return of the untouched text', func='EntityFixup.substitute', text='early out only without $')
+            continue
+        n_early += 1
+        t_ = ast.unparse(par_.test)
+        disj_ = par_.test.values if isinstance(par_.test, ast.BoolOp) and isinstance(par_.test.op, ast.Or) else [par_.test]
+        def no_dollar(d):
+            if isinstance(d, ast.Compare) and len(d.ops) == 1 and isinstance(d.ops[0], ast.NotIn):
+                return isinstance(d.left, ast.Constant) and d.left.value == '$' and isinstance(d.comparators[0], ast.Name) and d.comparators[0].id == prm_
+            if isinstance(d, ast.UnaryOp) and isinstance(d.op, ast.Not) and isinstance(d.operand, ast.Compare) and len(d.operand.ops) == 1 and isinstance(d.operand.ops[0], ast.In):
+                c = d.operand
+                return isinstance(c.left, ast.Constant) and c.left.value == '$' and isinstance(c.comparators[0], ast.Name) and c.comparators[0].id == prm_
+            return False
+        def empty_text(d):
+            return isinstance(d, ast.UnaryOp) and isinstance(d.op, ast.Not) and isinstance(d.operand, ast.Name) and d.operand.id == prm_
+        others_ = [d for d in disj_ if not no_dollar(d) and not empty_text(d)]
+        uses_state = [d for d in others_ if any(isinstance(n, ast.Name) and n.id == 'self' for n in ast.walk(d))]
+        ctx.shape('C17.N6', len(others_) == len(uses_state), vm, par_, f'early-out condition `{t_}` is neither the `$`-free test nor a test on the instance state', func='EntityFixup.substitute', text='early out only without $')
+        only_dollar = not uses_state
+        ctx.check('C17.N6', only_dollar, vm, par_, f'EntityFixup.substitute returns the text unchanged when `{t_}`: apart from "there is no $ in it" nothing justifies that - with an empty fixup table an undefined `$var` '
+                  'must still be replaced by the default (collapse_one relies on `substitute(value, \'\')` to blank them)', func='EntityFixup.substitute', text='early out only without $')
+    ctx.shape('C17.N6', n_early >= 1, vm, fn, 'the `$`-free early out exists', func='EntityFixup.substitute', text='early out present')
     ctx.shape('C17.N6', 'key=len, reverse=True' in src, vm, fn, 'longer variable names must be tried first (val$varval style references have no delimiter)', func='EntityFixup.substitute', text='longest variable first')
 
 
 MUTANTS = [
+    {'id': 'entity_copy_unhides_solids', 'file': 'vmf.py', 'find': "            solid.copy(vmf_file=vmf_file, side_mapping=side_mapping)\n", 'replace': "            solid.copy(vmf_file=vmf_file, side_mapping=side_mapping, keep_vis=keep_vis)\n", 'expect': 'C17.N5'},
+    {'id': 'ok_entity_copy_keeps_vis_explicit', 'file': 'vmf.py', 'find': "            solid.copy(vmf_file=vmf_file, side_mapping=side_mapping)\n", 'replace': "            solid.copy(vmf_file=vmf_file, side_mapping=side_mapping, keep_vis=True)\n", 'expect': None},
+    {'id': 'substitute_skips_empty_table', 'file': 'vmf.py', 'find': "        if '$' not in text:  # Early out, cannot substitute.", 'replace': "        if '$' not in text or not self._fixup:  # Early out, cannot substitute.", 'expect': 'C17.N6'},
     {'id': 'unrotated_brushes_translated', 'file': 'instancing.py', 'find': "        inst.brush_ids[old_brush.id] = new_brush.id\n        new_brush.localise(origin, orient)\n", 'replace': "        inst.brush_ids[old_brush.id] = new_brush.id\n        if orient == Matrix():\n            new_brush.translate(origin)\n        else:\n            new_brush.localise(origin, orient)\n", 'expect': 'C17.N3'},
     {'id': 'output_target_styled_before_substitution', 'file': 'instancing.py', 'find': "            out.target = inst.fixup_name(inst.fixup.substitute(out.target, ''))", 'replace': "            out.target = inst.fixup.substitute(inst.fixup_name(out.target), '')", 'expect': 'C17.N4'},
     {'id': 'uv_offset_only_for_positive_scale', 'file': 'vmf.py', 'find': "        offset = self.offset - vec.dot(origin) / self.scale\n", 'replace': "        offset = self.offset\n        if self.scale > 0:\n            offset = self.offset - vec.dot(origin) / self.scale\n", 'expect': 'C17.N3'},
